@@ -88,6 +88,7 @@ func sigResult(fr *Frame, name string, x *Exec, i int) types.Type { return nil }
 func DefaultModels() map[string]Model {
 	m := map[string]Model{}
 	registerIOModels(m)
+	registerExpModels(m)
 	errT := types.Universe.Lookup("error").Type()
 	m["fmt.Errorf"] = func(x *Exec, fr *Frame, st *State, args []Value, pos token.Pos) []Outcome {
 		return retOne(st, x.freshError(st, errT))
@@ -364,85 +365,8 @@ func DefaultModels() map[string]Model {
 		return heapMethod(x, fr, st, args[0], "Pop", nil, pos)
 	}
 	m["container/heap.Pop"], m["container/heap.Remove"] = popLike, popLike
-	// ---- container/list: structure abstracted (links unconstrained), element payloads preserved ----
-	listHavocLinks := func(x *Exec, st *State, e Value) {
-		// next, prev, list of an Element may change; Value does not
-		loc := x.ptrLoc(e)
-		stt, ok := loc.T.Underlying().(*types.Struct)
-		if !ok {
-			return
-		}
-		for i := 0; i < stt.NumFields(); i++ {
-			if stt.Field(i).Name() == "Value" {
-				continue
-			}
-			l := *loc
-			lo, hi := x.c.fieldRange(stt, i)
-			l.Lo, l.Hi, l.T = loc.Lo+lo, loc.Lo+hi, stt.Field(i).Type()
-			x.store(st, &l, x.freshValue(st, "link", l.T))
-		}
-	}
-	listNote := "assumed: container/list methods rewrite the list object and the links of the elements involved, never an element's Value; PushFront returns a new element holding the value"
-	m["(*container/list.List).MoveToFront"] = func(x *Exec, fr *Frame, st *State, args []Value, pos token.Pos) []Outcome {
-		x.c.note(listNote)
-		x.guardAccess(st, args[0].L[0], true)
-		x.havocReachable(st, args[0])
-		listHavocLinks(x, st, args[1])
-		return []Outcome{{St: st, Kind: OutReturn}}
-	}
-	m["(*container/list.List).MoveToBack"] = m["(*container/list.List).MoveToFront"]
-	m["(*container/list.List).Remove"] = func(x *Exec, fr *Frame, st *State, args []Value, pos token.Pos) []Outcome {
-		x.c.note(listNote)
-		x.havocReachable(st, args[0])
-		listHavocLinks(x, st, args[1])
-		loc := *x.ptrLoc(args[1])
-		stt := loc.T.Underlying().(*types.Struct)
-		for i := 0; i < stt.NumFields(); i++ {
-			if stt.Field(i).Name() == "Value" {
-				lo, hi := x.c.fieldRange(stt, i)
-				loc.Lo, loc.Hi, loc.T = loc.Lo+lo, loc.Lo+hi, stt.Field(i).Type()
-			}
-		}
-		return retOne(st, x.load(st, &loc))
-	}
-	pushModel := func(x *Exec, fr *Frame, st *State, args []Value, pos token.Pos) []Outcome {
-		x.c.note(listNote)
-		x.havocReachable(st, args[0])
-		et := x.lookupType("container/list.Element")
-		if et == nil {
-			unsup("container/list.Element not loaded")
-		}
-		ref := x.newRef(st, "listelem")
-		ev := Value{T: types.NewPointer(et), L: []*Term{ref}}
-		loc := x.ptrLoc(ev)
-		x.store(st, loc, x.freshValue(st, "elem", et))
-		stt := et.Underlying().(*types.Struct)
-		for i := 0; i < stt.NumFields(); i++ {
-			if stt.Field(i).Name() == "Value" {
-				l := *loc
-				lo, hi := x.c.fieldRange(stt, i)
-				l.Lo, l.Hi, l.T = loc.Lo+lo, loc.Lo+hi, stt.Field(i).Type()
-				x.store(st, &l, args[1])
-			}
-		}
-		return retOne(st, ev)
-	}
-	m["(*container/list.List).PushFront"], m["(*container/list.List).PushBack"] = pushModel, pushModel
-	for _, n := range []string{"Back", "Front"} {
-		m["(*container/list.List)."+n] = func(x *Exec, fr *Frame, st *State, args []Value, pos token.Pos) []Outcome {
-			x.guardAccess(st, args[0].L[0], false)
-			et := x.lookupType("container/list.Element")
-			v := x.freshValue(st, "listend", types.NewPointer(et))
-			if st.calls == nil {
-				st.calls = map[string][]Value{}
-			}
-			return retOne(st, v)
-		}
-	}
-	m["(*container/list.List).Len"] = func(x *Exec, fr *Frame, st *State, args []Value, pos token.Pos) []Outcome {
-		x.guardAccess(st, args[0].L[0], false)
-		return retOne(st, x.freshValue(st, "listlen", tInt))
-	}
+	// ---- container/list as a sequence (models_list.go) ----
+	registerListModels(m)
 	// ---- math/big.Int as an opaque object: constructors allocate, arithmetic methods write only the
 	// receiver and return it (numeric values are not modelled here) ----
 	bigT := func(x *Exec) types.Type {
@@ -924,6 +848,7 @@ func (x *Exec) freshLogEntry(st *State, name string) {
 }
 
 func registerSpecBuiltins(x *Exec) {
+	registerListSpecBuiltins(x)
 	// lastarg("pkg.Func", i): i-th argument of the most recent call to the function (receiver is 0)
 	x.specBuiltins["lastarg"] = func(sc *specScope, n *ECall) Value {
 		lit, ok := n.Args[0].(*ELit)
